@@ -27,6 +27,13 @@ type wrapped struct {
 
 // runShape executes an op list on a RingBuffer[V] against a slice model; mk makes the i-th value.
 func runShape[V comparable](cp int, ops []Op, mk func(i int) V, congr *bool) *vstat.Violation {
+	return runShapeW(cp, ops, mk, congr, new(bool))
+}
+
+// runShapeW: ReadN destinations are windows scratch[F:F+N] (see Op); window is set when such a window had spare capacity
+// while the buffer held more than len(dst) elements. The scratch outside the window starts as the zero value of V and
+// must stay so.
+func runShapeW[V comparable](cp int, ops []Op, mk func(i int) V, congr, window *bool) *vstat.Violation {
 	return vstat.Guard("ring:panic", func() *vstat.Violation {
 		rb := container.NewRingBuffer[V](uint(cp))
 		var model []V
@@ -79,10 +86,32 @@ func runShape[V comparable](cp int, ops []Op, mk func(i int) V, congr *bool) *vs
 				}
 			case "n":
 				ln := min(max(op.N, 0), maxDst)
-				dst := make([]V, ln)
+				front, back := min(max(op.F, 0), maxDst-ln), max(op.B, 0)
+				back = min(back, maxDst-ln-front)
+				scratch := make([]V, front+ln+back)
+				dst := scratch[front : front+ln] // cap(dst) = ln+back
 				want := min(ln, len(model))
-				if got := rb.ReadN(dst); got != want {
+				if back > 0 && len(model) > ln {
+					*window = true
+				}
+				got := rb.ReadN(dst)
+				if got > len(dst) {
+					return vstat.V("ring:readn-count-exceeds-dst", "%s: ReadN(scratch[%d:%d] of %d) returned %d although len(dst)=%d (Len=%d)", where, front, front+ln, len(scratch), got, len(dst), len(model))
+				}
+				if got != want {
 					return vstat.V("ring:readn-count", "%s: ReadN returned %d want %d", where, got, want)
+				}
+				if front+back <= 1<<16 {
+					for j := 0; j < front; j++ {
+						if scratch[j] != zero {
+							return vstat.V("ring:readn-wrote-outside-dst", "%s: scratch[%d] in front of the destination window scratch[%d:%d] was overwritten with %v", where, j, front, front+ln, scratch[j])
+						}
+					}
+					for j := front + ln; j < len(scratch); j++ {
+						if scratch[j] != zero {
+							return vstat.V("ring:readn-wrote-outside-dst", "%s: scratch[%d] behind the destination window scratch[%d:%d] was overwritten with %v", where, j, front, front+ln, scratch[j])
+						}
+					}
 				}
 				for j := 0; j < want; j++ {
 					if dst[j] != model[j] {
@@ -146,25 +175,34 @@ func runShapeCase(c shapeCase) *vstat.Violation {
 // runShapeCaseInfo also tells whether an index/count argument was a small value moved out of range by a multiple of
 // 2^16, 2^31 or 2^32 (classification only).
 func runShapeCaseInfo(c shapeCase) (v *vstat.Violation, congr bool) {
+	v, congr, _ = runShapeCaseInfoW(c)
+	return v, congr
+}
+
+// runShapeCaseInfoW also tells whether a ReadN destination was a window with spare capacity, shorter than Len.
+func runShapeCaseInfoW(c shapeCase) (v *vstat.Violation, congr, window bool) {
 	switch c.Shape {
 	case "string":
-		v = runShape(c.Cap, c.Ops, func(i int) string { return fmt.Sprintf("%s#%d", hostile[i%len(hostile)], i) }, &congr)
+		v = runShapeW(c.Cap, c.Ops, func(i int) string { return fmt.Sprintf("%s#%d", hostile[i%len(hostile)], i) }, &congr, &window)
 	case "struct":
-		v = runShape(c.Cap, c.Ops, func(i int) wrapped { return wrapped{hostile[i%len(hostile)], i} }, &congr)
+		v = runShapeW(c.Cap, c.Ops, func(i int) wrapped { return wrapped{hostile[i%len(hostile)], i} }, &congr, &window)
 	case "barestring":
-		v = runShape(c.Cap, c.Ops, func(i int) string { return hostile[i%len(hostile)] }, &congr)
+		v = runShapeW(c.Cap, c.Ops, func(i int) string { return hostile[i%len(hostile)] }, &congr, &window)
 	default: // zero-size elements: the only shape for which capacities near MaxInt can be allocated
-		v = runShape(c.Cap, c.Ops, func(i int) struct{} { return struct{}{} }, &congr)
+		v = runShapeW(c.Cap, c.Ops, func(i int) struct{} { return struct{}{} }, &congr, &window)
 	}
-	return v, congr
+	return v, congr, window
 }
 
 func TestC14Shapes(t *testing.T) {
 	st := vstat.For(prop)
 	run := func(tb vstat.TB, c shapeCase) {
-		v, congr := runShapeCaseInfo(c)
+		v, congr, window := runShapeCaseInfoW(c)
 		st.Report(tb, "TestC14Shapes", c, v)
 		classes := []string{"element_shape:" + c.Shape}
+		if window {
+			classes = append(classes, "element_shape:"+c.Shape+":readn_into_window_with_spare_capacity_shorter_than_Len")
+		}
 		if congr {
 			classes = append(classes, "element_shape:"+c.Shape+":argument_congruent_to_small_value_mod_2^16_2^31_2^32")
 			if c.Cap > 1<<32 {
@@ -219,6 +257,10 @@ func TestC14Shapes(t *testing.T) {
 			// one argument in six leaves the range by a multiple of 2^16, 2^31 or 2^32
 			if op.K != "w" && op.K != "r" && op.K != "c" && rapid.IntRange(0, 5).Draw(rt, "wide") == 0 {
 				op.N += rapid.SampledFrom([]int{1, 1, 1, 2, 3, -1, -2, 255, 1 << 20}).Draw(rt, "mult") * rapid.SampledFrom(Moduli).Draw(rt, "modulus")
+			}
+			// one ReadN destination in two is a window of a larger array (elements in front, spare capacity behind)
+			if op.K == "n" && rapid.Bool().Draw(rt, "window") {
+				op.F, op.B = rapid.IntRange(0, 3).Draw(rt, "front"), rapid.IntRange(0, 9).Draw(rt, "back")
 			}
 			c.Ops = append(c.Ops, op)
 		}
